@@ -1,7 +1,7 @@
 (* Proofs/LexInt.v — C13: from source text to token list: a decimal integer alone in the source. *)
 From Coq Require Import ZArith List Bool Lia.
 From Rscel Require Import Base.Prims Base.F64 Base.Text Model.Value Model.Lexer.
-From Rscel Require Import Proofs.Literals Proofs.Conv.
+From Rscel Require Import Proofs.Literals Proofs.Conv Proofs.StrLit.
 Import ListNotations.
 Open Scope Z_scope.
 
@@ -19,33 +19,77 @@ Proof.
     rewrite E. rewrite (IH (mkScan r (sc_line s) (sc_col s + 1)) (Forall_inv_tail Hd) eq_refl). cbn [sc_line sc_col length]. f_equal. lia.
 Qed.
 
+(** the first token of the decimal spelling of n, and the scanner state after it (end of input) *)
+Lemma collect_decimal n : 0 <= n -> in_u64 n = true ->
+  collect_token (mkScan (dec_of_nonneg n) 0 0) =
+  LOk (Some (mkTok (TIntLit n) (mkRange (mkLoc 0 0) (mkLoc 0 (Z.of_nat (length (dec_of_nonneg n)))))))
+      (mkScan [] 0 (Z.of_nat (length (dec_of_nonneg n)))).
+Proof.
+  intros Hn Hr. destruct (dec_of_nonneg_digits n Hn) as [Hd Hne].
+  destruct (dec_of_nonneg n) as [|d ds] eqn:E; [congruence|].
+  pose proof (digit_range d (Forall_inv Hd)) as R.
+  unfold collect_token. cbn [sc_rest length skip_ws]. unfold sc_next at 1. cbn [sc_rest].
+  assert (N10 : (d =? 10) = false) by (apply Z.eqb_neq; lia). rewrite N10.
+  repeat match goal with |- context [d =? ?k] =>
+    replace (d =? k) with false by (symmetry; apply Z.eqb_neq; lia) end.
+  cbn [orb]. cbv beta iota zeta.
+  repeat match goal with |- context [d =? ?k] =>
+    replace (d =? k) with false by (symmetry; apply Z.eqb_neq; lia) end.
+  cbn [orb]. rewrite (Forall_inv Hd).
+  pose proof (int_literal_denotes n d ds [] (mkScan ds 0 (0 + 1)) Hn E ltac:(cbn; rewrite app_nil_r; reflexivity) I) as L.
+  cbn [sc_line sc_col]. rewrite L, Hr. rewrite (advance_digits_loc ds (mkScan ds 0 (0 + 1)) (Forall_inv_tail Hd) eq_refl). cbn [sc_line sc_col sc_loc length].
+  replace (0 + 1 + Z.of_nat (length ds)) with (Z.of_nat (S (length ds))) by lia. reflexivity.
+Qed.
+
 (** The whole tokenizer on the decimal spelling of n: one integer token spanning the text. *)
 Theorem lex_decimal_source n : 0 <= n -> in_u64 n = true ->
   exists s', lex (dec_of_nonneg n) =
     LOk [mkTok (TIntLit n) (mkRange (mkLoc 0 0) (mkLoc 0 (Z.of_nat (length (dec_of_nonneg n)))))] s'.
 Proof.
-  intros Hn Hr. destruct (dec_of_nonneg_digits n Hn) as [Hd Hne].
-  destruct (dec_of_nonneg n) as [|d ds] eqn:E; [congruence|].
-  pose proof (digit_range d (Forall_inv Hd)) as R.
-  unfold lex. cbn [length lex_all].
-  (* first token *)
-  assert (T1 : collect_token (mkScan (d :: ds) 0 0) =
-               LOk (Some (mkTok (TIntLit n) (mkRange (mkLoc 0 0) (mkLoc 0 (Z.of_nat (length (d :: ds)))))))
-                   (mkScan [] 0 (Z.of_nat (length (d :: ds))))).
-  { unfold collect_token. cbn [sc_rest length skip_ws]. unfold sc_next at 1. cbn [sc_rest].
-    assert (N10 : (d =? 10) = false) by (apply Z.eqb_neq; lia). rewrite N10.
-    repeat match goal with |- context [d =? ?k] =>
-      replace (d =? k) with false by (symmetry; apply Z.eqb_neq; lia) end.
-    cbn [orb]. cbv beta iota zeta.
-    repeat match goal with |- context [d =? ?k] =>
-      replace (d =? k) with false by (symmetry; apply Z.eqb_neq; lia) end.
-    cbn [orb]. rewrite (Forall_inv Hd).
-    pose proof (int_literal_denotes n d ds [] (mkScan ds 0 (0 + 1)) Hn E ltac:(cbn; rewrite app_nil_r; reflexivity) I) as L.
-    cbn [sc_line sc_col]. rewrite L, Hr. rewrite (advance_digits_loc ds (mkScan ds 0 (0 + 1)) (Forall_inv_tail Hd) eq_refl). cbn [sc_line sc_col sc_loc length].
-    replace (0 + 1 + Z.of_nat (length ds)) with (Z.of_nat (S (length ds))) by lia. reflexivity. }
-  rewrite T1.
-  (* end of input *)
+  intros Hn Hr. pose proof (collect_decimal n Hn Hr) as T1.
+  destruct (dec_of_nonneg_digits n Hn) as [_ Hne].
+  unfold lex. destruct (dec_of_nonneg n) as [|d ds] eqn:E; [congruence|].
+  cbn [length lex_all]. rewrite T1.
   destruct ds as [|d2 ds2].
   - cbn [length lex_all]. cbn. eexists. reflexivity.
   - cbn [length lex_all]. unfold collect_token at 1. cbn [sc_rest length skip_ws sc_next]. cbn. eexists. reflexivity.
+Qed.
+
+(* ---- unsigned: digits followed by u / U ------------------------------------------------------ *)
+
+Lemma advance_digits_tail : forall ds s tail, Forall (fun c => is_digit c = true) ds -> sc_rest s = ds ++ tail ->
+  advance s ds = mkScan tail (sc_line s) (sc_col s + Z.of_nat (length ds)).
+Proof.
+  induction ds as [|d r IH]; intros s tail Hd Hs.
+  - cbn in *. destruct s; cbn in *; subst. f_equal. lia.
+  - cbn [advance]. pose proof (digit_range d (Forall_inv Hd)) as R.
+    assert (E : snd (sc_next s) = mkScan (r ++ tail) (sc_line s) (sc_col s + 1)).
+    { unfold sc_next. rewrite Hs. cbn [app]. assert (N : (d =? 10) = false) by (apply Z.eqb_neq; lia). rewrite N. reflexivity. }
+    rewrite E. rewrite (IH (mkScan (r ++ tail) (sc_line s) (sc_col s + 1)) tail (Forall_inv_tail Hd) eq_refl).
+    cbn [sc_line sc_col length]. f_equal. lia.
+Qed.
+
+Lemma collect_decimal_u n u : 0 <= n -> in_u64 n = true -> (u = 117 \/ u = 85) ->
+  collect_token (mkScan (dec_of_nonneg n ++ [u]) 0 0) =
+  LOk (Some (mkTok (TUIntLit n) (mkRange (mkLoc 0 0) (mkLoc 0 (Z.of_nat (length (dec_of_nonneg n ++ [u])))))))
+      (mkScan [] 0 (Z.of_nat (length (dec_of_nonneg n ++ [u])))).
+Proof.
+  intros Hn Hr Hu. destruct (dec_of_nonneg_digits n Hn) as [Hd Hne].
+  destruct (dec_of_nonneg n) as [|d ds] eqn:E; [congruence|].
+  pose proof (digit_range d (Forall_inv Hd)) as R.
+  unfold collect_token. cbn [app sc_rest length skip_ws]. unfold sc_next at 1. cbn [sc_rest].
+  assert (N10 : (d =? 10) = false) by (apply Z.eqb_neq; lia). rewrite N10.
+  repeat match goal with |- context [d =? ?k] =>
+    replace (d =? k) with false by (symmetry; apply Z.eqb_neq; lia) end.
+  cbn [orb]. cbv beta iota zeta.
+  repeat match goal with |- context [d =? ?k] =>
+    replace (d =? k) with false by (symmetry; apply Z.eqb_neq; lia) end.
+  cbn [orb]. rewrite (Forall_inv Hd).
+  pose proof (uint_literal_denotes n d ds u [] (mkScan (ds ++ [u]) 0 (0 + 1)) Hn E eq_refl Hu) as L.
+  cbn [sc_line sc_col]. rewrite L, Hr.
+  rewrite advance_app. rewrite (advance_digits_tail ds (mkScan (ds ++ [u]) 0 (0 + 1)) [u] (Forall_inv_tail Hd) eq_refl).
+  cbn [advance sc_line sc_col]. unfold sc_next. cbn [sc_rest sc_line sc_col].
+  assert (Nu : (u =? 10) = false) by (destruct Hu; subst; reflexivity). rewrite Nu. cbn [snd sc_loc sc_line sc_col].
+  rewrite app_length. cbn [length].
+  replace (0 + 1 + Z.of_nat (length ds) + 1) with (Z.of_nat (S (length ds + 1))) by lia. reflexivity.
 Qed.
